@@ -285,12 +285,18 @@ pub fn named_content_formats() -> Vec<(ContentFormat, usize)> {
 }
 
 pub fn run_c05(ctx: &mut Ctx) {
+    let level = ctx.level;
     let rep = &mut ctx.rep;
-    rep.exhaustive = true;
+    // level 0 (interpreter-sized) walks every 97th unnamed number; every named row is always checked
+    rep.exhaustive = level > 0;
+    let keep = |n: usize, named: bool| level > 0 || named || n % 97 == 0;
     set_case_str("C05 registry sweep");
 
     // ---- options: all 65536 numbers
     for n in 0..=65535u16 {
+        if !keep(n as usize, OPTIONS.iter().any(|(k, _)| *k == n) || OPTIONS_OPTIONAL.iter().any(|(k, _)| *k == n)) {
+            continue;
+        }
         rep.eval();
         let r = guard(|| {
             let o = CoapOption::from(n);
@@ -337,6 +343,9 @@ pub fn run_c05(ctx: &mut Ctx) {
     // ---- content formats: all 16-bit ids and a few beyond
     let extra: [usize; 6] = [65536, 65537, 70000, 1 << 20, u32::MAX as usize, usize::MAX];
     for n in (0..=65535usize).chain(extra.iter().copied()) {
+        if !keep(n, n > 65535 || CONTENT_FORMATS.iter().any(|(k, _, _)| *k == n)) {
+            continue;
+        }
         rep.eval();
         let r = guard(|| ContentFormat::try_from(n).map(|v| (format!("{:?}", v), usize::from(v))));
         let r = match r {
@@ -505,7 +514,7 @@ pub fn run_c05(ctx: &mut Ctx) {
     let orders: [[u8; 3]; 6] = [[0, 1, 2], [0, 2, 1], [1, 0, 2], [1, 2, 0], [2, 0, 1], [2, 1, 0]];
     for v in 0..4u8 {
         for (ti, t) in types.iter().enumerate() {
-            for tkl in 0..16u8 {
+            for tkl in (0..16u8).step_by(if level == 0 { 5 } else { 1 }) {
                 for ord in orders.iter() {
                     rep.eval();
                     let r = guard(|| {
@@ -535,7 +544,7 @@ pub fn run_c05(ctx: &mut Ctx) {
     }
 
     // ---- observe actions
-    for n in (0..=2000usize).chain([65535usize, 65536, 1 << 24, usize::MAX]) {
+    for n in (0..=2000usize).step_by(if level == 0 { 37 } else { 1 }).chain([1usize, 2, 65535, 65536, 1 << 24, usize::MAX]) {
         rep.eval();
         let r = ObserveOption::try_from(n);
         let ok = match (n, &r) {
